@@ -383,6 +383,10 @@ func Select(a, i *Term) *Term {
 	if a.Op == "constarr" {
 		return a.Args[0]
 	}
+	if a.Op == "ite" {
+		// push reads through conditionals so that reads of named arrays become visible
+		return Ite(a.Args[0], Select(a.Args[1], i), Select(a.Args[2], i))
+	}
 	// read-over-write with syntactically equal / distinct-literal index
 	for a.Op == "store" {
 		if a.Args[1] == i {
